@@ -120,6 +120,42 @@ def run_case(ctx, case):
             r = impl(lambda: kv.scale(val))
             if r[0] == "ok" or [frac(x) for x in kv] != list(U):
                 rec.violation("non-positive scale accepted or modified the vector", case, value=str(val))
+        if rep == "fraction":
+            # one object, inspected and evaluated before the in-place maps: everything derived from the knots must follow them
+            kv = KnotVector(list(U))
+            fobj = Function(kv)
+            us = params_for(ctx["rng"], U, extra=1)
+            before = dict(knots=[frac(x) for x in kv.knots], limits=tuple(frac(x) for x in kv.limits),
+                          vals=[tuple(frac(x) for x in fobj(u)) for u in us],
+                          spans=[kv.span(x) for x in knots], mults=[kv.mult(x) for x in knots])
+            r = impl(lambda: (kv.shift(a), kv.scale(s)))
+            l3(rec, "affine-object-state")
+            if r[0] != "ok":
+                rec.violation("shift/scale raised on an inspected vector", case, observed=r[1])
+            else:
+                V = [frac(x) for x in kv]
+                g = lambda x: (x + a) * s        # noqa: E731
+                if V != [g(x) for x in U]:
+                    rec.violation("shift then scale on an inspected vector gives wrong knots", case, observed=ser(V))
+                obs = impl(lambda: dict(knots=[frac(x) for x in kv.knots], limits=tuple(frac(x) for x in kv.limits),
+                                        vals=[tuple(frac(x) for x in Function(kv)(g(u))) for u in us],
+                                        spans=[kv.span(g(x)) for x in knots], mults=[kv.mult(g(x)) for x in knots]))
+                want = dict(before, knots=[g(x) for x in before["knots"]], limits=tuple(g(x) for x in before["limits"]))
+                if obs[0] != "ok":
+                    rec.violation("a vector mapped in place cannot be inspected / evaluated any more", case, observed=obs[1])
+                elif obs[1] != want:
+                    bad = [k for k in want if obs[1][k] != want[k]]
+                    rec.violation("after in-place shift/scale the vector reports stale or wrong %s" % ", ".join(bad), case,
+                                  observed=ser(obs[1][bad[0]]), expected=ser(want[bad[0]]))
+                r = impl(lambda: kv.normalize())
+                lo, hi = g(U[0]), g(U[-1])
+                wantk = [(x - lo) / (hi - lo) for x in want["knots"]]
+                if r[0] != "ok" or [frac(x) for x in kv.knots] != wantk or tuple(frac(x) for x in kv.limits) != (0, 1):
+                    rec.violation("after in-place normalize the vector reports stale or wrong knots / limits", case,
+                                  observed=ser([frac(x) for x in kv.knots]) if r[0] == "ok" else r[1], expected=ser(wantk))
+                r = impl(lambda: (kv.convert(float), list(kv.knots)))
+                if r[0] == "ok" and not all(isinstance(x, float) for x in r[1][1]):
+                    rec.violation("after convert(float) the distinct knots keep the old number type", case)
         # invariance of the basis under the reparametrisation u -> s*u + a (exact data)
         if rep == "fraction":
             f1 = Function(list(U))
